@@ -526,7 +526,43 @@ def standin_clifford_state_maps(tier, seed):
 standin_clifford_state_maps.prop = "C13"
 
 
-STANDINS = [standin_clifford_circuits, standin_single_qubit_group, standin_rowsum, standin_tableau_measure, standin_sampling_statistics, standin_clifford_state_maps]
+def standin_clifford_decompositions(tier, seed):
+    """a CliffordGate built from a list of operations decomposes into operations with the same matrix (up to global phase) and the same tableau:
+    every sequence of <= 3 operations from a 9-operation two-qubit alphabet (incl. SWAP / ISWAP, which move Z-type rows to the last qubit) and
+    seeded sequences on 3 qubits"""
+    import itertools
+
+    import cirq
+
+    rng = random.Random(seed + 63)
+    cases, fails = 0, []
+    a, b, c = cirq.LineQubit.range(3)
+    alpha2 = [cirq.H(a), cirq.H(b), cirq.S(a), cirq.S(b), cirq.CNOT(a, b), cirq.CNOT(b, a), cirq.CZ(a, b), cirq.SWAP(a, b), cirq.ISWAP(a, b)]
+    alpha3 = alpha2 + [cirq.H(c), cirq.S(c), cirq.CNOT(b, c), cirq.CNOT(c, a), cirq.SWAP(a, c), cirq.SWAP(b, c), cirq.ISWAP(b, c), cirq.CZ(a, c)]
+    seqs = [(list(sq), [a, b]) for n in (1, 2, 3) for sq in itertools.product(alpha2, repeat=n)]
+    seqs += [([rng.choice(alpha3) for _ in range(rng.randrange(2, 8))], [a, b, c]) for _ in range(80 if tier == "quick" else 1500)]
+    for ops_, qs in seqs:
+        cases += 1
+        try:
+            g = cirq.CliffordGate.from_op_list(ops_, qs)
+            dec = cirq.decompose_once(g.on(*qs))
+            got = cirq.Circuit(dec).unitary(qubit_order=qs, qubits_that_should_be_present=qs)
+            back = cirq.CliffordGate.from_op_list(dec, qs)
+        except Exception as ex:
+            fails.append(dict(args=dict(operations=repr(ops_)), failed="clifford-decomposition-raised", clause=f"{ex!r}"))
+            continue
+        want = cirq.Circuit(ops_).unitary(qubit_order=qs, qubits_that_should_be_present=qs)
+        if not cirq.allclose_up_to_global_phase(got, want, atol=1e-7):
+            fails.append(dict(args=dict(operations=repr(ops_), decomposition=repr(dec)[:800]), failed="clifford-decomposition", clause="the decomposition of CliffordGate.from_op_list(operations) does not have the operations' matrix (up to global phase)"))
+        elif back.clifford_tableau != g.clifford_tableau:
+            fails.append(dict(args=dict(operations=repr(ops_), decomposition=repr(dec)[:800]), failed="clifford-decomposition", clause="the decomposition of the gate has a different tableau than the gate"))
+        if len(fails) >= 3:
+            break
+    return dict(function="cirq-core/cirq/transformers/analytical_decompositions/clifford_decomposition.py:decompose_clifford_tableau_to_operations", case="clifford-decompositions",
+                bound="all 819 sequences of <= 3 operations from a 9-operation two-qubit Clifford alphabet + seeded 3-qubit sequences of 2-7 operations", cases=cases, distinct=cases, failures=len(fails), exhaustive=False, _fails=fails[:3])
+standin_clifford_decompositions.prop = "C13"
+
+STANDINS = [standin_clifford_circuits, standin_single_qubit_group, standin_rowsum, standin_tableau_measure, standin_sampling_statistics, standin_clifford_state_maps, standin_clifford_decompositions]
 
 
 def _replay_tableau(ob, seed):
